@@ -22,6 +22,12 @@ NA = {
 }
 
 CHECKS = {
+    "C08": {
+        "text": "Seeded deterministic simulation of (a) rule-add histories on bare SuffixTrie objects (<= 4 rules quick / <= 6 thorough over a 3-label alphabet; normal, wildcard, exception rules, duplicates; the same multiset under 1-3 seeded schedules) with every hostname of depth <= 4 queried after every add in rotating spellings (bare, URL, schemeless, upper case, trailing dot, SplitResult, auth), and (b) life-cycle histories of the process-global state of ural.tld — two simulated origin servers publishing list versions, an operator running upgrade(transient=True) / upgrade() / restart — with injected network faults (refused, reset while reading, truncated, undecodable, stale), disk faults (open error, ENOSPC at the k-th write) and crashes (at the k-th write with a torn or partially lost durable image; before the file is opened), starting from a synthetic data file or the real bundled one. Oracle: an independent set-based implementation of the publicsuffix.org algorithm over the rule list in effect (served list after a successful upgrade; old or served list, never a mixture, after a failed one; the loaded file after a restart). A deterministic preflight sweeps the whole derived host set of the bundled list (~30k hosts + seeded random label sequences). Sampled evidence with minimised exactly-replayable counterexamples.",
+        "note": "Trusted: the set-based PSL reference and the reference list-file parser (sim/psl.py, ~80 lines), the fakes (sim/fakes.py), CPython's importlib.reload as the model of a process restart. A host matched by no rule has no valid suffix (the property's wording). Hosts matched by two nested exception rules are not judged (the algorithm is silent). A torn data file that fails to import is 'node down', not a violation.",
+        "design": "DESIGN.md §4 C08",
+        "technique": "deterministic simulation with fault injection: seeded rule-add schedules + upgrade/restart life cycle on fake network and fake disk with crash points, set-based PSL reference model, ddmin-minimised replay",
+    },
     "C11": {
         "text": "Seeded deterministic simulation of set / __setitem__ / set_lru histories on one trie of a seeded class (LRUTrie, Canonicalized-, Normalized-, FingerprintedLRUTrie) x suffix_aware x the variant's options, by 1-3 writer clients with readers, live iterator tasks and faults (set() of a URL the tokeniser rejects, iterator cancellation) interleaved by a seeded scheduler. After every mutating event every URL of a per-run universe (12-80 URLs: scheme x auth x host chain x port x path chain x query x fragment and the spellings the variant merges) is matched and compared with longest-prefix lookup in a dict model keyed by cleaned stems; list and serialised LRUs must be interchangeable; len and iteration are compared; independently, all URLs the variant's URL-level function maps to one string must give the same answer and hit right after one of them is stored. Sampled evidence with minimised exactly-replayable counterexamples.",
         "note": "Trusted: the prefix-map model (20 lines), CPython, and — shared between model and system — the repository's module-level stem functions (a stem bug consistent between set and match is C07/C12/C13's subject); the same-key law against canonicalize_url/normalize_url/fingerprint_url is the independent cross-check.",
